@@ -2,9 +2,14 @@
 package c08
 
 import (
+	"context"
 	"fmt"
 	"strings"
+	"sync/atomic"
 	"testing"
+	"time"
+
+	"github.com/whoisnian/glb/tasklane"
 
 	"pgregory.net/rapid"
 
@@ -75,6 +80,120 @@ func TestBoundAnySize(t *testing.T) {
 		ev.Label(fmt.Sprintf("anysize:max_running=%d_of_%d", res.MaxRunning, p.LaneSize))
 		ev.Case(res.MaxRunning == p.LaneSize && res.Accepted > p.LaneSize, ev.Hash("anysize", p.String()), func() string {
 			return fmt.Sprintf("%s => accepted=%d maxRunning=%d", p, res.Accepted, res.MaxRunning)
+		})
+	})
+}
+
+// ---- lanes on contexts that can never be cancelled (real clock, outside a bubble) ----
+
+type neverDone struct{ context.Context } // a context implementation of the caller's own whose Done() is nil
+
+func (neverDone) Done() <-chan struct{} { return nil }
+func (neverDone) Err() error            { return nil }
+
+type plainTask struct {
+	started atomic.Int32
+	gate    chan struct{}
+}
+
+func (p *plainTask) Start() {
+	p.started.Add(1)
+	if p.gate != nil {
+		<-p.gate
+	}
+}
+
+// TestNeverCancelledContext: context.Background(), context.WithoutCancel(...) and a context of the caller's own with a
+// nil Done channel are legitimate contexts for a lane that lives as long as the process. Work sharing does not depend
+// on the context: with k < laneSize workers pinned, a task queued behind a pinned worker is started by an idle one.
+// The lane can never be shut down, so this runs on the real clock outside a bubble and leaves the lane's goroutines
+// parked; "as soon as" is judged with a bound of seconds on something that takes microseconds.
+func TestNeverCancelledContext(t *testing.T) {
+	rt.Check(t, 12, 600, func(t *rapid.T) {
+		var ctx context.Context
+		flavour := rapid.SampledFrom([]string{"Background", "TODO", "WithoutCancel", "own implementation with a nil Done channel"}).Draw(t, "context")
+		switch flavour {
+		case "Background":
+			ctx = context.Background()
+		case "TODO":
+			ctx = context.TODO()
+		case "WithoutCancel":
+			parent, cancel := context.WithCancel(context.Background())
+			cancel()
+			ctx = context.WithoutCancel(parent)
+		default:
+			ctx = neverDone{context.Background()}
+		}
+		lanes := rapid.IntRange(2, 5).Draw(t, "laneSize")
+		queue := rapid.IntRange(1, 3).Draw(t, "queueSize")
+		pinned := rapid.IntRange(1, lanes-1).Draw(t, "pinnedWorkers")
+		tl := tasklane.New(ctx, lanes, queue)
+		tl.SetTimeout(2 * time.Second)
+		gate := make(chan struct{})
+		defer close(gate)
+		var blockers []*plainTask
+		for l := 0; l < pinned; l++ {
+			b := &plainTask{gate: gate}
+			blockers = append(blockers, b)
+			if err := tl.PushTask(b, l); err != nil {
+				t.Fatalf("PushTask of a blocking task returned %v", err)
+			}
+		}
+		waitFor := func(cond func() bool) bool {
+			deadline := time.Now().Add(5 * time.Second)
+			for !cond() {
+				if time.Now().After(deadline) {
+					return false
+				}
+				time.Sleep(50 * time.Microsecond)
+			}
+			return true
+		}
+		if !waitFor(func() bool {
+			for _, b := range blockers {
+				if b.started.Load() == 0 {
+					return false
+				}
+			}
+			return true
+		}) {
+			t.Fatalf("%s context, laneSize %d: the %d blocking tasks were not all started within 5s", flavour, lanes, pinned)
+		}
+		// everything else goes to the pinned lanes: behind a busy worker, while lanes-pinned workers are idle
+		var rest []*plainTask
+		for i := 0; i < queue; i++ {
+			for l := 0; l < pinned; l++ {
+				p := &plainTask{}
+				if err := tl.PushTask(p, l); err != nil {
+					t.Fatalf("PushTask returned %v", err)
+				}
+				rest = append(rest, p)
+			}
+		}
+		if !waitFor(func() bool {
+			for _, p := range rest {
+				if p.started.Load() == 0 {
+					return false
+				}
+			}
+			return true
+		}) {
+			n := 0
+			for _, p := range rest {
+				if p.started.Load() > 0 {
+					n++
+				}
+			}
+			t.Fatalf("lane on a %s context, laneSize %d, queueSize %d: %d workers are pinned by long tasks, %d are idle, and %d tasks were queued behind the pinned workers - only %d of them were started within 5s", flavour, lanes, queue, pinned, lanes-pinned, len(rest), n)
+		}
+		for _, p := range rest {
+			if c := p.started.Load(); c != 1 {
+				t.Fatalf("a task was started %d times", c)
+			}
+		}
+		ev.Label("never_cancelled_context:" + flavour)
+		ev.Case(true, ev.Hash("never", flavour, fmt.Sprint(lanes, queue, pinned)), func() string {
+			return fmt.Sprintf("lane on a %s context: laneSize %d, queueSize %d, %d workers pinned, %d tasks queued behind them all ran on the idle workers", flavour, lanes, queue, pinned, len(rest))
 		})
 	})
 }
